@@ -44,7 +44,7 @@ def catalogue():
     c["ipv4"] = ({"k": "IPv4"}, ["10.0.0.1", "192.168.0.1"], ["10.0.0.256", "01.2.3.4", 5])
     c["net"] = ({"k": "Net", "o": {"min_prefix_len": 8, "max_prefix_len": 24}}, ["10.0.0.0/8", "192.168.1.0/24"],
                 ["10.0.0.1/8", "10.0.0.0/25", "0.0.0.0/0", 8])
-    c["host"] = ({"k": "Host", "o": {"default": "localhost"}}, ["example.com", "10.0.0.1"], ["a b", 5])
+    c["host"] = ({"k": "Host", "o": {"default": "localhost"}}, ["example.com", "10.0.0.1"], ["a b", 5, "::1", "fe80::1"])      # (an IPv6 literal is neither a host name nor an IPv4 address)
     c["url"] = ({"k": "Url"}, ["http://x", "a:b"], ["nourl", "://x", 1])
     c["bytes"] = ({"k": "Bytes"}, [Y(b"ab"), "cd"], [5, ["ab"], BA(b"ab")])
     c["file"] = ({"k": "File", "o": {"exists": False}}, ["no-such-file.txt", "other-missing"], [".", 5])
@@ -60,7 +60,7 @@ def catalogue():
     c["list-any"] = ({"k": "List"}, [[1, "a"], []], ["notalist", 5])
     c["dict-typed"] = ({"k": "Dict", "key": {"k": "Str", "o": {"transform_strip": True}}, "val": {"k": "Int", "o": {"min": 0, "max": 9}},
                         "o": {"default": D(("d", 1))}}, [D(("k", 1)), D((" K ", "2")), D(), D(("z", 0))], [D(("k", "x")), [1], D(("k", 10)), "k"])
-    c["dict-any"] = ({"k": "Dict"}, [D(("k", 1)), D()], [[1], "x"])
+    c["dict-any"] = ({"k": "Dict"}, [D(("k", 1)), D()], [[1], "x", {"$": "mproxy", "v": [["k", 1]]}, {"$": "userdict", "v": [["k", 1]]}])      # a dict field holds dicts, not other mappings
     c["list-int-cd"] = ({"k": "List", "item": {"k": "Int", "o": {"min": 0, "max": 9}}, "o": {"default": [1, 2], "default_callable": True}},
                         [[2], [1, "2"]], [[1, "x"], 5])
     c["dict-typed-cd"] = ({"k": "Dict", "key": {"k": "Str", "o": {"transform_strip": True}}, "val": {"k": "Int", "o": {"min": 0, "max": 9}},
